@@ -14,6 +14,7 @@ pub mod c17;
 pub mod c18;
 pub mod c19;
 pub mod c20;
+pub mod miri_entry;
 pub mod sample_props;
 
 pub fn dispatch(ctx: &Ctx) -> i32 {
